@@ -1,6 +1,7 @@
 import Proofs.C07Writer
 import Proofs.C07Machine
 import Proofs.C07Quit
+import Proofs.C07Sem
 /-!
 # C07 — frames are written whole (property theorems)
 
@@ -429,6 +430,74 @@ example : ∃ s, run { lens := fun _ => 10, coalesce := true } init
      .enter 2, .piece 2 10, .endWrite 2 true, .flusherQuit, .shutdown] = some s ∧
     s.wire = [⟨1, 0, 10⟩, ⟨2, 0, 10⟩] ∧ s.pc 3 = .wrote 0 false ∧ s.pc 2 = .wrote 10 true ∧ s.gone = true := by
   refine ⟨_, rfl, ?_, ?_, ?_, ?_⟩ <;> decide
+
+/-! ### the semaphore is held exactly while a Write is in progress (cancellation at the select: `S<w>` scenarios)
+
+A caller whose context has ALREADY ENDED when it reaches writeContext's first select (Conn.exec checks `ctx.Err()` up front,
+but the context can end between that check and the select) is one `submit w` followed by whatever the select takes:
+`cancel w` (it leaves with `(0, ctx.Err())`) or `enter w` / `enqueue w` (the semaphore / the hand-over won: it writes like
+anybody else). Either way the mechanism is left intact: -/
+
+/-- the semaphore (coalescer: "the buffer the flusher is writing") is held by `w` IF AND ONLY IF the frame of `w` is inside
+    the socket Write — in every reachable state, both writers. A writer that returned early, with or without an error, never
+    keeps it, and nobody is inside the Write without holding it. -/
+theorem C07_semaphore_held_only_inside_write (cfg : Cfg) (hser : cfg.serialised = true) (as : List Act) (s : St)
+    (h : run cfg init as = some s) (w : Nat) : s.owner = some w ↔ ∃ off, s.pc w = .inWrite off := by
+  constructor
+  · exact ownerIn_run cfg as init s ownerIn_init h w
+  · rintro ⟨off, ho⟩
+    exact (inv_run cfg hser as init s (inv_init cfg) h).mutex w off ho
+
+/-- a writer whose outcome is determined (it left through `ctx.Done()`, through `quit`, or with the result of its Write)
+    does not hold the semaphore -/
+theorem C07_outcome_holds_no_semaphore (cfg : Cfg) (as : List Act) (s : St) (h : run cfg init as = some s) (w : Nat)
+    (o : Nat × Bool) (ho : (s.pc w).outcome = some o) : s.owner ≠ some w := by
+  intro hw
+  obtain ⟨off, hp⟩ := ownerIn_run cfg as init s ownerIn_init h w hw
+  rw [hp] at ho
+  simp [Pc.outcome] at ho
+
+/-- the semaphore is never lost: while no Write is in progress it is free, so a caller waiting in the direct writer's
+    select can take it (nobody is parked there for ever because an earlier caller left without releasing) -/
+theorem C07_free_when_no_write_in_progress (cfg : Cfg) (hc : cfg.coalesce = false) (as : List Act) (s : St)
+    (h : run cfg init as = some s) (hno : ∀ x off, s.pc x ≠ .inWrite off) (w : Nat) (hw : s.pc w = .waiting) :
+    s.owner = none ∧ ∃ s', step cfg s (.enter w) = some s' ∧ s'.pc w = .inWrite 0 ∧ s'.owner = some w ∧ s'.wire = s.wire := by
+  have hfree : s.owner = none := by
+    cases ho : s.owner with
+    | none => rfl
+    | some x =>
+      obtain ⟨off, hp⟩ := ownerIn_run cfg as init s ownerIn_init h x ho
+      exact absurd hp (hno x off)
+  refine ⟨hfree, { s with pc := setPc s.pc w (.inWrite 0), owner := some w, todo := s.todo.filter (· ≠ w) }, ?_,
+    setPc_same _ _ _, rfl, rfl⟩
+  simp only [step]
+  rw [if_pos ⟨fun _ => hfree, Or.inl ⟨hc, hw⟩⟩]
+
+/-- a caller that leaves the first select through `ctx.Done()` takes nothing with it: no byte, not the semaphore, no slot
+    in the flusher's queue or batch; every other writer is where it was -/
+theorem C07_cancelled_leaves_nothing (cfg : Cfg) (s s' : St) (w : Nat) (hs : step cfg s (.cancel w) = some s') :
+    s.pc w = .waiting ∧ s'.pc w = .cancelled ∧ s'.wire = s.wire ∧ s'.owner = s.owner ∧ s'.queue = s.queue ∧
+      s'.todo = s.todo ∧ s'.flushing = s.flushing ∧ ∀ x, x ≠ w → s'.pc x = s.pc x :=
+  cancel_frame cfg s s' w hs
+
+/-- non-vacuity: writer 1's context has ended when it reaches the select and the select takes `ctx.Done()`; writers 2, 3
+    then write one after the other (3 cannot enter while 2 is half out) -/
+example : ∃ s, run { lens := fun _ => 10, coalesce := false } init
+    [.submit 1, .cancel 1, .submit 2, .enter 2, .ret 1, .piece 2 4, .submit 3, .piece 2 6, .endWrite 2 true, .enter 3,
+     .piece 3 10, .endWrite 3 true] = some s ∧
+    s.wire = [⟨2, 0, 4⟩, ⟨2, 4, 6⟩, ⟨3, 0, 10⟩] ∧ s.pc 1 = .done 0 false ∧ s.owner = none := by
+  refine ⟨_, rfl, ?_, ?_, ?_⟩ <;> decide
+
+/-- ... the history of a writer whose early return releases the semaphore a second time (writer 3 enters while writer 2
+    is half out) is not a behaviour of the machine -/
+example : run { lens := fun _ => 10, coalesce := false } init
+    [.submit 1, .cancel 1, .submit 2, .enter 2, .ret 1, .piece 2 4, .submit 3, .enter 3] = none := by decide
+
+/-- ... and the other branch of the select: the semaphore wins although the context has ended; the frame is written whole -/
+example : ∃ s, run { lens := fun _ => 10, coalesce := false } init
+    [.submit 1, .enter 1, .submit 2, .piece 1 10, .endWrite 1 true, .ret 1, .enter 2] = some s ∧
+    s.pc 1 = .done 10 true ∧ s.owner = some 2 := by
+  refine ⟨_, rfl, ?_, ?_⟩ <;> decide
 
 /-! ### frame size is a parameter: nothing above depends on it; the two writers differ in ONE size-independent detail -/
 
